@@ -46,7 +46,10 @@ def _merge_stubs_overloads(obj: Module | Class, stubs: Module | Class) -> None:
     for function_name, overloads in list(stubs.overloads.items()):
         if overloads:
             with suppress(KeyError, AliasResolutionError, CyclicAliasError):
-                obj.get_member(function_name).overloads = overloads
+                member = obj.get_member(function_name)
+                # A class or module of the same name keeps its own overloads mapping.
+                if member.is_function:
+                    member.overloads = overloads
         del stubs.overloads[function_name]
 
 
